@@ -747,7 +747,7 @@ def task_histories(tier, seed, arg):
         kind, where, _sig = ck
         if kind == "digest":
             t, g = where.split(".", 1)
-            own = {t: {g: diffs.get(t, {}).get(g, clusters and {})}} if g in diffs.get(t, {}) else diffs
+            own = {t: {g: diffs[t][g]}} if g in diffs.get(t, {}) else diffs
         else:
             own = diffs
         violations.append({
